@@ -499,8 +499,13 @@ func Run(root func(), c Config, s *Tape) Result {
 				// a task about to evaluate a select with several cases is the most rewarding one
 				// to freeze: when it resumes, more than one case may be ready and the tape decides
 				holdOdds := 6
-				if cand[idx].kind == "select" && cand[idx].n >= 2 {
+				switch k := cand[idx].kind; {
+				case k == "select" && cand[idx].n >= 2:
 					holdOdds = 64
+				case k == "net.close" || k == "fs.close":
+					// a Close that takes a while: the window between a decision taken under a
+					// lock and the release of the resource it was taken for
+					holdOdds = 32
 				}
 				if holdsLeft > 0 && r>>7 >= 512-holdOdds && cfg.HoldMax > 0 {
 					// slow-task fault: freeze this gate for a simulated duration
